@@ -1,8 +1,10 @@
 ENGINES = [
- {"name": "E1 small-scope enumerator", "path": "vf/enum.py", "serves_properties": ["C01"],
+ {"name": "E1 small-scope enumerator", "path": "vf/enum.py", "serves_properties": ["C01", "C02", "C03", "C05", "C06", "C08", "C16"],
   "kind_free_text": "exhaustive enumeration of full products and of all vectors with <= d non-default coordinates over declared finite alphabets, run on the real code"},
- {"name": "E2 explicit-state search", "path": "vf/core.py", "serves_properties": ["C15"],
+ {"name": "E2 explicit-state search", "path": "vf/bfs.py", "serves_properties": ["C07", "C15", "C16"],
   "kind_free_text": "explicit-state exploration of real objects / automata with reference-model agreement on every transition"},
+ {"name": "E3 fault enumerator", "path": "vf/props/c04.py", "serves_properties": ["C04", "C06"],
+  "kind_free_text": "every position x replacement class, every prefix (crash point), suffixes, every key bit, every cipher-call failure index"},
 ]
 NOTES = ("All checks run /venv/bin/python -B against /repo's working tree (VERIF_REPO overrides the tree for self-tests). "
          "No sampling: VERIF_SEED only derives a few extra alphabet symbols which are enumerated like all others.")
@@ -39,3 +41,11 @@ add("C05", "exploration", "bounded exhaustive enumeration of structured edit com
     "Every single edit and every pair (thorough: triples) of ~30 structural edit operators at every entry position of each base file, MACs recomputed, is read by the real reader; accept/reject and returned content must agree with an independently written validator of the statement's rules.",
     "The validator (vf/ref/layout.py) is the statement's rules as I read them; reference AES trusted after self-check.",
     "E1", "DESIGN.md 4/C05")
+add("C02", "exploration", "bounded exhaustive enumeration: key classes x ordered block subsets x decryptor subsets with deviation bound on the rest",
+    "Full product of 10 session-key classes (incl. trailing 00 bytes and CRC bytes equal to 00, found with the reference CRC) x all 15 ordered block subsets x every decryptor subset opening >= 1 block, with every single deviation (thorough: pairs) over selector, version, security code, customer key, content shape and seed keys; real write then real read, compared field by field.",
+    "Randomness is owned by the os.urandom seam; ECC recipients are explicit test key pairs.",
+    "E1", "DESIGN.md 4/C02")
+add("C07", "model_checking", "explicit-state BFS over operation histories of real Bec2File objects with canonical-state hashing, plus exhaustive splice enumeration",
+    "Breadth-first search (depth 7 quick / 9 thorough, all states up to the bound fully expanded) over New/NewKey/Switch/Add/Write/Read(D) on two live objects; on every Write each block is unwrapped by independent reference code and must agree with the object's key and the directory MACs, unopened blocks must stay byte-identical, key and ephemeral freshness is checked against the logged randomness seam. Splice: every ordered pair of block kinds x differing key pairs (incl. every single-bit difference) must be rejected / accepted as stated.",
+    "State merging assumes behaviour depends on the hashed fields and the randomness stream only; reference AES/CRC/EC trusted after self-checks.",
+    "E2+E1", "DESIGN.md 4/C07")
